@@ -96,7 +96,7 @@ def convert(key, val):
     if key in ["preprocessing_options", "method_kws"]:
         return json.dumps(val)
     if key == "range_x":
-        return str(val)
+        return str([float(v) for v in val])
     return val
 
 
@@ -191,6 +191,11 @@ class Pool:
         if m.exists():
             shutil.copy(m, tdir / m.name)
             self.files.append((tdir / m.name, [0, 1, 2]))
+        # a recorded curve whose approach/retract switch is moved by the segment-discovery step
+        m = repo_data / "fmt-jpk-fd_spot3-0192.jpk-force"
+        if m.exists():
+            shutil.copy(m, tdir / m.name)
+            self.files.append((tdir / m.name, [0]))
         self.cache = {}
 
     def keys(self):
@@ -204,11 +209,18 @@ class Pool:
             with warnings.catch_warnings():
                 warnings.simplefilter("ignore")
                 idnt = nanite.IndentationGroup(f)[enum]
-                idnt.apply_preprocessing(["compute_tip_position", "correct_force_offset", "correct_tip_offset"]
-                                         if variant != "nopre" else [])
+                steps_ = ["compute_tip_position", "correct_force_offset", "correct_tip_offset"]
+                if variant == "S":
+                    # the stored 'segment' column is the one the preprocessing produced, not the instrument's
+                    steps_ = steps_ + ["correct_split_approach_retract"]
+                idnt.apply_preprocessing(steps_ if variant != "nopre" else [])
                 kw = {"A": dict(model_key="hertz_para"),
                       # the same fit as "A" reached with different stored settings (the interval covers everything)
                       "A2": dict(model_key="hertz_para", range_x=(-1, 1), range_type="absolute"),
+                      # interval bounds given as numpy scalars (e.g. taken from an array)
+                      "N": dict(model_key="hertz_para", range_x=(np.float64(-3e-7), np.float64(1e-7)),
+                                range_type="absolute"),
+                      "S": dict(model_key="hertz_para"),
                       "B": dict(model_key="hertz_cone"),
                       "C": dict(model_key="hertz_para", range_x=(-3e-7, 1e-7), range_type="absolute",
                                 weight_cp=0, method_kws={"ftol": 1e-9}),
@@ -314,13 +326,15 @@ def run(ctx):
             # fit reached with other settings and a fractional rating, then the first object again
             plan = [(keys[s % len(keys)], "A", 5), (keys[s % len(keys)], "A2", 7.5), (keys[s % len(keys)], "A", 3)] \
                 if s in (0, 1) else None
+            if s == 2:
+                plan = [(keys[-1], "S", 4), (keys[0], "S", 6)]
             for step in range(len(plan) if plan else rng.randint(2, 5)):
                 fi, enum = rng.choice(keys)
                 idd_known = [k for k in stored if stored[k][3] == (fi, enum)]
                 if idd_known and rng.random() < 0.6:
                     variant = rng.choice([stored[idd_known[0]][2], stored[idd_known[0]][2], "B", "A", "R", "F", "A2"])
                 else:
-                    variant = rng.choice(["A", "A", "B", "C", "R"])
+                    variant = rng.choice(["A", "A", "B", "C", "R", "N", "S"])
                 rate, name, comment = rng.choice([0, 3, 7, 10, -1, 7.5, 2.25]), rng.choice(["ann", "bob"]), \
                     rng.choice(["", "ok", "noisy baseline"])
                 if plan:
